@@ -341,6 +341,11 @@ def rule_aggregation(ctx):
                                        ctx.repo.func("pandapower.pf.run_dc_pf:_run_dc_pf")])
     if n < 2:
         ctx.fail("SLACK-SPLIT: the slack sharing statements were not found")
+    _lints.split_total(ctx, "SPLIT-TOTAL")
+    RDC = "DC-CACHE"
+    ctx.rule(RDC, "recycled DC power flow: when the phase shift changed, every cached key that the unchanged-shift branch reads (Pbusinj, "
+                  "Pfinj) and the compared key (shift) are refreshed; the full build stores all keys")
+    _lints.dc_cache_refresh(ctx, RDC)
 
 
 def rule_zip_sibling(ctx):
@@ -398,10 +403,16 @@ def variants(repo):
     rb = "pandapower/results_bus.py"
     ms = "pandapower/pypower/makeSbus.py"
     return [
+        Variant("recycled dc run keeps the old branch injection", "pandapower/pf/run_dc_pf.py", replace_once("            ppci['internal']['Pfinj'] = Pfinj\n    else:", "    else:"), "DC-CACHE"),
+        Variant("recycled dc run forgets the compared shift", "pandapower/pf/run_dc_pf.py", replace_once("            ppci['internal']['shift'] = branch[:, SHIFT]\n            ppci['internal']['Pbusinj'] = Pbusinj\n            ppci['internal']['Pfinj'] = Pfinj\n", "            ppci['internal'].update(Pbusinj=Pbusinj, Pfinj=Pfinj)\n"), "DC-CACHE"),
+        Variant("twin: cache refreshed through update()", "pandapower/pf/run_dc_pf.py", replace_once("            ppci['internal']['shift'] = branch[:, SHIFT]\n            ppci['internal']['Pbusinj'] = Pbusinj\n            ppci['internal']['Pfinj'] = Pfinj\n", "            ppci['internal'].update(shift=branch[:, SHIFT], Pbusinj=Pbusinj, Pfinj=Pfinj)\n"), None),
         Variant("table shunt without in-service mask", bb, replace_once('q = q + s["q_mvar_table"].fillna(0).to_numpy() * v_ratio * vl', 'q = q + s["q_mvar_table"].fillna(0).to_numpy() * v_ratio'), "IS-FACTOR"),
         Variant("ward admittance without in-service mask", bb, replace_once('p = np.hstack([p, w["pz_mw"].values * base_multiplier * vl])', 'p = np.hstack([p, w["pz_mw"].values * base_multiplier])'), "IS-FACTOR"),
         Variant("ac slack split by all gens at the bus", "pandapower/pypower/pfsoln.py",
                 replace_once("gen[ext_grids, PG] = p_ext_grids / len(ext_grids)", "gen[ext_grids, PG] = p_ext_grids / len(gens_at_bus)"), "SLACK-SPLIT"),
+        Variant("equal split of the whole bus power among all gens", "pandapower/pypower/pfsoln.py", replace_once("gen[ext_grids, PG] = p_ext_grids / len(ext_grids)", "gen[gens_at_bus, PG] = p_bus / len(gens_at_bus)"), "SPLIT-TOTAL"),
+        Variant("equal split forgets the pv generation", "pandapower/pypower/pfsoln.py", replace_once("gen[ext_grids, PG] = p_ext_grids / len(ext_grids)", "gen[ext_grids, PG] = p_bus / len(ext_grids)"), "SPLIT-TOTAL"),
+        Variant("twin: pv sum in a local", "pandapower/pypower/pfsoln.py", replace_once("        p_ext_grids = p_bus - sum(gen[pv_gens, PG])\n", "        p_pv = sum(gen[pv_gens, PG])\n        p_ext_grids = p_bus - p_pv\n"), None),
         Variant("dc slack split counts all gens", "pandapower/pf/run_dc_pf.py",
                 replace_once("ext_grids_bus=bincount(refgenbus)", "ext_grids_bus=bincount(gen[:, GEN_BUS].astype(np.int64))"), "SLACK-SPLIT"),
         Variant("ext grid admittance with repeated bus index", bb, in_function("_add_ext_grid_sc_impedance",
